@@ -137,11 +137,27 @@ def pyval(v):
     return None
 
 
-def build(t, env=None, leaf_hook=None):
+def build(t, env=None, leaf_hook=None, _memo=None):
+    """Build the real calgebra object.  Two stored leaves with identical content are ONE Python
+    object (users reuse timeline objects: `(a & b) & (a & c)`), so aliasing inside an n-ary
+    node is exercised."""
+    if _memo is None:
+        _memo = {}
+    real = _build(t, env, leaf_hook, _memo)
+    return real
+
+
+def _build(t, env, leaf_hook, memo):
+    build = lambda x, e, h: _build(x, e, h, memo)      # noqa: E731
     op = t["op"]
     if op == "stored":
+        key = repr(t["evs"])
+        if key in memo and t["evs"]:
+            return memo[key]
         tl = timeline(*[mk_event(e, env) for e in t["evs"]])
-        return leaf_hook(tl, t) if leaf_hook else tl
+        tl = leaf_hook(tl, t) if leaf_hook else tl
+        memo[key] = tl
+        return tl
     if op == "or":
         return build(t["l"], env, leaf_hook) | build(t["r"], env, leaf_hook)
     if op == "and":
@@ -303,6 +319,19 @@ class Gen:
         return s, e
 
     def leaf(self, mode=None, rich=None):
+        r = self.rng
+        if self.next_id == 1:
+            self.made = []
+        made = getattr(self, "made", [])
+        if made and r.random() < 0.07:
+            # the same timeline object used twice in one expression (same events, same ids)
+            return copy.deepcopy(r.choice(made))
+        lf = self._leaf(mode, rich)
+        if lf["evs"]:
+            self.made = made + [lf]
+        return lf
+
+    def _leaf(self, mode=None, rich=None):
         r = self.rng
         mode = mode or r.choice(["any", "any", "disjoint", "disjoint", "nested", "dup", "touch"])
         n = r.choice([0, 1, 1, 2, 2, 3, 3, self.max_ev])
